@@ -140,6 +140,44 @@ std::string fn_extra(const std::string& id, const tensor_size_t dims, const tens
         matrix_t   A = matrix_t::identity(dims, dims) + R * R.transpose();
         out << flist_str(a.data(), a.size()) << flist_str(A.data(), A.size());
     }
+    else if (id.find('+') != std::string::npos)
+    {
+        // elastic-net prototypes: the synthetic data of the constructor (same calls), the regularisation factors from the id
+        const auto n     = std::max(dims, tensor_size_t{2});
+        const auto base  = id.substr(0, id.find('+'));
+        const auto lb    = id.find('[');
+        const auto rb    = id.find(']');
+        const auto kind  = id.substr(id.find('+') + 1, lb - id.find('+') - 1);
+        const auto args  = id.substr(lb + 1, rb - lb - 1);
+        auto       a1    = 0.0;
+        auto       a2    = 0.0;
+        if (kind == "ridge")
+        {
+            a2 = std::stod(args);
+        }
+        else if (kind == "lasso")
+        {
+            a1 = std::stod(args);
+        }
+        else
+        {
+            a1 = std::stod(args.substr(0, args.find(',')));
+            a2 = std::stod(args.substr(args.find(',') + 1));
+        }
+        const auto put = [&](const auto& data)
+        {
+            out << data.inputs().rows() << data.inputs().cols() << flist_str(data.inputs().data(), data.inputs().size())
+                << data.bopt()(0) << flist_str(data.targets().data(), data.targets().size()) << a1 << a2;
+        };
+        if (base == "hinge" || base == "logistic")
+        {
+            put(synthetic_sclass_t{summands, 1, n});
+        }
+        else
+        {
+            put(synthetic_scalar_t{summands, 1, n});
+        }
+    }
     else if (id == "geometric-optimization")
     {
         const auto a = make_random_vector<scalar_t>(summands, -1.0, +1.0, seed_t{42});
